@@ -11,6 +11,7 @@ package c05
 
 import (
 	"fmt"
+	goruntime "runtime"
 	"sort"
 	"strings"
 
@@ -49,6 +50,18 @@ type c05Payload struct {
 	// Extra modules for multi-module oddities
 	Mods map[string]string `json:"m,omitempty"`
 	Gen  string            `json:"g"`
+	// Growth: the case is a pair of towers of depth GrowthD and 2*GrowthD of the same construct
+	// (Data holds the deeper one); the work of the front end must not explode with the depth.
+	Growth *growthSpec `json:"gr,omitempty"`
+}
+
+type growthSpec struct {
+	Pre, Open, Mid, Close, Post string
+	D                           int
+}
+
+func (g growthSpec) text(d int) string {
+	return g.Pre + strings.Repeat(g.Open, d) + g.Mid + strings.Repeat(g.Close, d) + g.Post
 }
 
 var c05Vocab = []string{
@@ -269,6 +282,26 @@ func (c05) Cases(tier string, seed uint64) []fw.Case {
 		{"1 ** ", "1", "", "fn main() { let x = ", "; }"},
 		{"x = ", "1", "", "fn main() { let x = 1; ", "; }"},
 		{"1..", "2", "", "fn main() { let x = ", "; }"},
+		// nesting in the second / last position of a construct
+		{"match 1 { 1 => 2, _ => ", "3", " }", "fn main() { let x = ", "; }"},
+		{"match 1 { 1 => 2, 5 | 6 => ", "3", ", _ => 4 }", "fn main() { let x = ", "; }"},
+		{"match ", "1", " { 1 => 2, _ => 3 }", "fn main() { let x = ", "; }"},
+		{"try { 1 } catch e { ", "2", " }", "fn main() { let x = ", "; }"},
+		{"if true { 1 } else if false { 2 } else { ", "3", " }", "fn main() { let x = ", "; }"},
+		{"if ", "true", " { true } else { false }", "fn main() { let x = ", "; }"},
+		{"[1, ", "2", "]", "fn main() { let x = ", "; }"},
+		{"new { a: 1, b: ", "2", " }", "fn main() { let x = ", "; }"},
+		{"{ let y = ", "1", "; y }", "fn main() { let x = ", "; }"},
+		{"f(1, ", "2", ")", "fn f(a: int, b: int) -> int { a + b } fn main() { let x = ", "; }"},
+		{"fn() -> int { let y = ", "1", "; y }()", "fn main() { let x = ", "; }"},
+		{"if true { ", "", " } else { }", "fn main() { ", " }"},
+		{"if true { } else { ", "", " }", "fn main() { ", " }"},
+		{"{ a: int, b: ", "int", " }", "type T = ", "; fn main() {}"},
+		{"fn(a: int) -> ", "null", "", "type T = ", "; fn main() {}"},
+		{"true && ", "true", "", "fn main() { let x = ", "; }"},
+		{"(1 + ", "1", ") * 2", "fn main() { let x = ", "; }"},
+		{"undefined_a + (", "undefined_b", ")", "fn main() { let x = ", "; }"},
+		{"match 1 { 1 => 2, _ => ", "undefined_c", " }", "fn main() { let x = ", "; }"},
 	}
 	for _, tw := range towers {
 		for _, d := range depths {
@@ -277,6 +310,12 @@ func (c05) Cases(tier string, seed uint64) []fw.Case {
 			// unbalanced variant
 			s2 := tw.pre + strings.Repeat(tw.open, d) + tw.mid
 			add("tower-open", []byte(s2), nil, false)
+		}
+		// (e1) growth: depth 8 against 16 (and 12 against 24)
+		for _, d := range []int{8, 12} {
+			g := growthSpec{Pre: tw.pre, Open: tw.open, Mid: tw.mid, Close: tw.close, Post: tw.post, D: d}
+			cases = append(cases, fw.MkCase(fmt.Sprintf("c05-growth-%d", n), "growth", c05Payload{Data: []byte(g.text(2 * d)), Gen: "growth", Growth: &g}))
+			n++
 		}
 	}
 	// (e2) every truncation of lexemes with internal structure (escapes, numbers, comments,
@@ -568,6 +607,26 @@ func (c05) Run(c fw.Case) fw.Result {
 		res.Verdict = fw.Violated
 		res.Sig = fmt.Sprintf("go-panic:%s:%s", util.NormPanic(fmt.Sprint(pv)), util.FirstFrame(stack))
 		res.Why = fmt.Sprintf("Go panic %q at %s, mode=%s input=%q", util.Clip(fmt.Sprint(pv), 200), stack, mode, util.Clip(string(p.Data), 300))
+	}
+	if p.Growth != nil && res.Verdict == fw.Held {
+		// bounded work: the front end may be polynomial in the nesting depth, not exponential.
+		// Work is measured in heap allocations of the analysing goroutine's process (deterministic for
+		// a given input up to runtime noise): doubling the depth of a tower may multiply it by 16 at most.
+		work := func(text string) int64 {
+			s := drive.Sources{"main": text}
+			var before, after goruntime.MemStats
+			goruntime.ReadMemStats(&before)
+			drive.Analyze(s, "main", true)
+			goruntime.ReadMemStats(&after)
+			return int64(after.Mallocs - before.Mallocs)
+		}
+		small, big := work(p.Growth.text(p.Growth.D)), work(p.Growth.text(2*p.Growth.D))
+		res.Obs["growth_small_allocs"], res.Obs["growth_big_allocs"] = small, big
+		if big > 16*small+20000 {
+			res.Verdict = fw.Violated
+			res.Sig = "growth:" + p.Growth.Open + p.Growth.Mid + p.Growth.Close
+			res.Why = fmt.Sprintf("front-end work explodes with nesting depth: %d allocations at depth %d, %d at depth %d (more than 16x) for towers of %q", small, p.Growth.D, big, 2*p.Growth.D, p.Growth.Open+"…"+p.Growth.Close)
+		}
 	}
 	if p.Gen == "tower" || p.Gen == "odd" || p.Gen == "edit" {
 		res.Sample = map[string]any{"gen": p.Gen, "mode": mode, "input": util.Clip(string(p.Data), 160), "errors": ao.Errors}
